@@ -12,7 +12,7 @@ from . import c16
 
 ID = "C11"
 MODULE = "LasioProofs.Props.C11"
-EXTRA_MODULES = ["LasioProofs.Props.C11File", "LasioProofs.Props.C11Data", "LasioProofs.Props.C01FileDlm", "LasioProofs.Props.C11Refresh", "LasioProofs.Props.C11Typed", "LasioProofs.Props.C11EndToEnd", "LasioProofs.Props.C11FixedText"]
+EXTRA_MODULES = ["LasioProofs.Props.C11File", "LasioProofs.Props.C11Data", "LasioProofs.Props.C01FileDlm", "LasioProofs.Props.C11Refresh", "LasioProofs.Props.C11Typed", "LasioProofs.Props.C11EndToEnd", "LasioProofs.Props.C11FixedText", "LasioProofs.Props.C11EndToEndWrap"]
 RULE = ("inputs x writer option sets x cycles: L0 = read(x); x1 = write(L0); L1 = read(x1); x2 = write(L1); L2 = read(x2); ... up to "
         "k = 4 re-reads.  Inputs: every file of tests/examples (unreadable / unwritable ones counted and skipped), generated documents "
         "(harness/lasdoc.gen_doc: section permutations, custom sections, fillers, DLM variants; c16.gen_text: right / wrong STOP, unit "
